@@ -75,7 +75,7 @@ def covered(fields, rs):
     return False
 
 
-def run(ctx, anchors=None):
+def run(ctx, anchors=None, failed_step_rule=False):
     fb, prog = ctx.facts, ctx.prog
     A = anchors or {
         "stepper": ("StepScript", "debugger/interpreter.cpp"),
@@ -273,6 +273,38 @@ def run(ctx, anchors=None):
     for h, n in pops_fail:
         if h not in pushed:
             ctx.fail("R04.2", "pop-without-push:" + h, stepper.loc(n), "%s popped on failure but never pushed" % h)
+    if failed_step_rule:
+        # (decided for C12 / C01, not for C04 whose histories contain no failing step) a failed operation step leaves the
+        # session at the failing operation: every snapshotted field is put back from its snapshot on the failing edge
+        ctx.rule("R04.F", "on the failing edge of the operation step every snapshotted field is restored from its snapshot before the snapshot is dropped")
+        fail_restores = {}
+        for n in stepper.nodes():
+            lhs = rhs = None
+            if n["k"] == "assign":
+                lhs, rhs = n["lhs"], n["rhs"]
+            elif n["k"] == "opcall" and n["op"] == "=" and len(n["args"]) == 2:
+                lhs, rhs = n["args"]
+            if lhs is None:
+                continue
+            r = rhs
+            while r is not None and r.get("k") == "ctor" and r.get("copy") and r["args"]:
+                r = r["args"][0]
+            if r is not None and r.get("k") == "mcall" and r.get("n") == "back":
+                hp = efields(stepper, r.get("obj"))
+                lp = efields(stepper, lhs)
+                if hp and lp:
+                    fail_restores.setdefault(hp[0][0], []).append((lp[0], n))
+        for h, (src, pn) in sorted(pushed.items()):
+            if not before.get(h):
+                continue      # pushed only after success: nothing was recorded, nothing can be stale ... but the field itself may be
+            rs = [(dst, n) for (dst, n) in fail_restores.get(h, []) if dst == src]
+            ns = [n for (hh, n) in pops_fail if hh == h]
+            ok = bool(rs) and cfg.must_pass_from_block(fail_succ, [n for (d_, n) in rs]) and all(any(cfg.dominates(n, p_) for (d_, n) in rs) for p_ in ns)
+            ctx.site()
+            ctx.inst(ok, "R04.F", "restored-on-failure:" + h, stepper.loc(rs[0][1]) if rs else stepper.loc(call),
+                     "after a failed operation '%s' is put back from %s before the snapshot is dropped" % (".".join(src or ("?",)), h),
+                     "a failed operation step returns with '%s' as the failed operation left it (%s is dropped without being restored): the next `step` "
+                     "continues after the failing operation while the position marker still shows it" % (".".join(src or ("?",)), h))
     # counter: exactly one increment on the success edge, none on the failing edge
     incs = []
     for n in stepper.nodes():
